@@ -74,6 +74,11 @@ def unicode_digit_mutations(g, hl, rng, full):
     return out
 
 
+# characters whose upper() / lower() / casefold() is ASCII or longer than one character (U+FB00 'ff' ligature -> "FF",
+# Kelvin sign -> "k", long s -> "S", dotless i -> "I"): a test on the case-converted text lets them through
+CASE_EXPANDING = ["\ufb00", "\ufb01", "\u212a", "\u017f", "\u0131", "\u0149"]
+
+
 def mutations(rng, g, hl):
     n = len(g)
     out = []
@@ -81,6 +86,8 @@ def mutations(rng, g, hl):
     for p in structural:
         if 0 <= p < n:
             for ch in rng.sample(HOSTILE, 4) + [rng.choice("0123456789ABCDEFGZz"), "0", "F"]:
+                out.append(g[:p] + ch + g[p + 1:])
+            for ch in CASE_EXPANDING[:3]:
                 out.append(g[:p] + ch + g[p + 1:])
             out.append(g[:p])
             out.append(g[:p] + rng.choice(HOSTILE) + g[p:])
